@@ -275,7 +275,7 @@ def cases(rng, tier):
             for rh in ({}, {"X-App": "1"}, {"Authorization": "Bearer t", "X-App": "1"}):
                 out.append({"proxy_scheme": ps, "dest_scheme": "http", "forwarding": False, "proxy_headers": ph, "headers": rh, "proxy_cert": "ok", "origin_cert": "ok",
                             "connect": [200, 200], "ipv6": False, "close_after": [False, False, False], "nreq": 2, "retries": False, "redirect": True})
-    for _ in range(1500 if tier == "quick" else 100000):
+    for _ in range(4000 if tier == "quick" else 100000):
         out.append(one_case(rng))
     return out
 
